@@ -769,7 +769,8 @@ func TestCheck(t *testing.T) {
 // ---------------------------------------------------------------- probes
 
 // runProbe: one search that must cross the calendar day Pacific/Apia and
-// Pacific/Fakaofo skipped (2011-12-30), starting on a day that does not match.
+// Pacific/Fakaofo skipped (2011-12-30), starting on a day that does not match,
+// in a month that does (so the search walks day by day into the skipped day).
 func runProbe(idx int, k kase) {
 	zn := []string{"Pacific/Apia", "Pacific/Fakaofo"}[k.a%2]
 	z := getZone(zn)
@@ -778,7 +779,7 @@ func runProbe(idx int, k kase) {
 		return
 	}
 	tr := z.skipped[0]
-	body := []string{"0 0 31 12 *", "@monthly", "0 12 * * SAT", "30 6 1 1 *", "0 0 1 * ?", "15 3 31 DEC *", "@yearly", "0 0 * * 6"}[(k.a/2)%8]
+	body := []string{"0 0 31 12 *", "@monthly", "0 12 * * SAT", "30 6 31 * *", "0 0 1 * ?", "15 3 31 DEC *", "0 0 31 12 ?", "0 0 * * 6"}[(k.a/2)%8]
 	spec := []string{"TZ=", "CRON_TZ="}[(k.a/4)%2] + zn + " " + body
 	o := &optSets[0]
 	t := time.Unix(tr.at-int64(1+6*k.a)*3600, 0).UTC()
